@@ -860,6 +860,76 @@ def lookalike(rng, hash_table_items, with_storage=False, allow_value_side=False)
     return a.assemble(), info
 
 
+def lift_shapes(rng, B):
+    """The operand shapes the lifting passes pattern-match on, with hostile constants where they expect well-behaved
+    ones: (x OP c) and (c OP x) for multiplicative / shifting / additive / bitwise OP, x symbolic (a storage load, call
+    data, the caller), c a boundary constant (0, 1, 2, non-powers of two, 2^255, 2^256-1 ...); bare, under a mask (on
+    either side), under a second such operation, under both; stored, used as a key, logged. A division by a literal
+    zero under a mask, a multiplication by zero inside a packed word, a shift by 2^256-1 and the like all reach the
+    lifting passes because one operand is symbolic, so nothing is folded away first."""
+    a = evm.Asm()
+    feats = {"lift-shapes"}
+    ops = ["DIV", "MUL", "SHL", "SHR", "SAR", "EXP", "SDIV", "MOD", "SMOD", "AND", "OR", "XOR", "SUB", "ADD", "SIGNEXTEND", "BYTE"]
+    small = [0, 0, 0, 1, 2, 3, 5, 7, 8, 0x100, 0x10000, 1 << 160, 1 << 255, evm.M256, evm.M256 - 1]
+    masks = [0xff, 0xffff, (1 << 160) - 1, 0xff00, 1, 0, evm.M256, (1 << 128) - 1, 0xffffffff << 32]
+
+    def sym():
+        k = rng.random()
+        if k < 0.4:
+            a.emit(rng.randint(0, 3), "SLOAD")
+        elif k < 0.7:
+            a.emit(rng.choice([0, 4, 36]), "CALLDATALOAD")
+        elif k < 0.85:
+            a.emit(rng.choice(["CALLER", "CALLVALUE", "TIMESTAMP"]))
+        else:
+            a.emit(rng.randint(0, 3), "SLOAD", rng.choice(masks), "AND")
+
+    def const():
+        c = rng.choice(small) if rng.random() < 0.7 else rng.choice(B)
+        a.emit(("push", c, rng.choice([1, 32])) if c < 256 and rng.random() < 0.3 else c)
+
+    def binop():
+        op = rng.choice(ops)
+        # EVM operand order: the first operand is on top of the stack, so it is pushed last
+        if rng.random() < 0.5:
+            const()
+            sym()
+        else:
+            sym()
+            const()
+        a.emit(op)
+        feats.add("op:" + op)
+
+    for _ in range(rng.randint(1, 5)):
+        binop()
+        layers = rng.randint(0, 2)
+        for _l in range(layers):
+            k = rng.random()
+            if k < 0.5:
+                a.emit(rng.choice(masks), "AND")
+            elif k < 0.65:
+                a.emit(rng.choice(masks), "SWAP1", "AND")
+            elif k < 0.85:
+                const()
+                a.emit(rng.choice(ops))
+            else:
+                const()
+                a.emit("SWAP1", rng.choice(ops))
+        use = rng.random()
+        if use < 0.5:
+            a.emit(rng.randint(0, 3), "SSTORE")
+        elif use < 0.65:
+            a.emit("SLOAD", "POP")
+        elif use < 0.8:
+            a.emit(rng.randint(0, 3), "SLOAD", "OR", rng.randint(0, 3), "SSTORE")
+        elif use < 0.9:
+            a.emit(0x80, "MSTORE", 0x20, 0x80, "LOG0")
+        else:
+            a.emit("CALLVALUE", "SWAP1", "SSTORE")
+    a.emit("STOP")
+    return a.assemble(), feats
+
+
 def hash_constants(rng, items):
     """Straight-line programs whose constants are the literal keccak hashes of small slot numbers (what an optimising
     compiler emits for dynamic arrays): alone, offset by constants and by call data, combined with each other, as the
